@@ -7,6 +7,15 @@ theorem tmsOfList_map_inst (τ : Nat → Tm) : (σ : List Tm) → tmsOfList (σ.
   | [] => by simp [tmsOfList, Tms.inst]
   | t :: ts => by simp [tmsOfList, Tms.inst, tmsOfList_map_inst τ ts]
 
+theorem tmsOfList_inj : (a b : List Tm) → tmsOfList a = tmsOfList b → a = b
+  | [], [], _ => rfl
+  | [], _ :: _, h => by simp [tmsOfList] at h
+  | _ :: _, [], h => by simp [tmsOfList] at h
+  | x :: xs, y :: ys, h => by
+      simp only [tmsOfList] at h
+      injection h with h1 h2
+      rw [h1, tmsOfList_inj xs ys h2]
+
 theorem not_instance_of_isInstance_false {σ θ : List Tm} (h : isInstance σ θ = false) :
     ∀ τ : Nat → Tm, σ.map (Tm.inst τ) ≠ θ := by
   intro τ heq
